@@ -20,6 +20,8 @@ func init() {
 	reg1("C01Agree", SetupC01Agree, HarnessC01Agree)
 	reg1("C01Lookup", SetupC01Lookup, HarnessC01Lookup)
 	reg1("C02History", SetupC02History, HarnessC02History)
+	reg1("C03Snapshot", SetupC03Snapshot, HarnessC03Snapshot)
+	reg1("C04Txn", SetupC04Txn, HarnessC04Txn)
 	reg1("C07Pair", SetupC07Pair, HarnessC07Pair)
 	reg1("C08Tsr", SetupC08Tsr, HarnessC08Tsr)
 	reg1("C11Serve", SetupC11Serve, HarnessC11Serve)
